@@ -137,7 +137,8 @@ PROPS = {
                         "the hand-over of stored blocks to the server half (lib.rs poll) is exercised by the node engine; in the client engine get_new_blocks is observed directly"],
     },
     "C17": {
-        "engines": [{"name": "wantlist", "n": {"quick": 1200, "thorough": 30000}, "profiles": ["debug"], "oracle": "oracle_C17", "shard": 300}],
+        "engines": [{"name": "wantlist", "n": {"quick": 1200, "thorough": 30000}, "profiles": ["debug"], "oracle": "oracle_C17", "shard": 300},
+                    {"name": "client", "n": {"quick": 500, "thorough": 12000}, "profiles": ["debug"], "oracle": "oracle_C17", "shard": 15, "count": ["sends_want_block"]}],
         "tie_lemmas": ["tie_wl_full_table", "tie_wl_update_table", "tie_wl_update_wildcard", "tie_entry_constructors", "tie_default_send_dont_have"],
         "rule": """engine wantlist: raw API histories on one Wantlist + one WantlistState: every sequence of <= 4 (quick) / 5 (thorough) client-level events over 1 CID and <= 3 / 4 over 2 CIDs ({insert(+wanted_again), remove, have, dont_have, block-from-peer, gen-update, gen-full}), random histories up to length 80 over 2-4 CIDs (2/3 following the client's discipline, 1/3 arbitrary API calls, correspondence only), both values of send_dont_have; generated entries are compared as sets of full protobuf Entry values. Non-trivial = more than one event.""",
         "assumptions": ["the builder option reaches the wantlist unchanged: exercised by the client engine (both settings) under C04/C03"],
